@@ -143,5 +143,53 @@ func corpusWitnesses(o *Out) {
 				"versioned-run-equals-single-version-run/D11-version-by-version-add-back corpus", "corpus:D11")
 		}
 	}
+	// D17 (C02): an empty list owned by an updater disappears when the applier abandons the only other
+	// field of the struct that holds it
+	{
+		p2, err := typed.NewParser(`types:
+- name: root
+  map:
+    fields:
+    - name: spec
+      type: {namedType: spec}
+    - name: other
+      type: {scalar: numeric}
+- name: spec
+  map:
+    fields:
+    - name: f
+      type: {scalar: numeric}
+    - name: sibl
+      type:
+        list:
+          elementRelationship: associative
+          elementType: {scalar: numeric}
+`)
+		if err == nil {
+			tv2 := func(s string) *typed.TypedValue {
+				v, err := p2.Type("root").FromYAML(typed.YAMLObject(s))
+				if err != nil {
+					panic(err)
+				}
+				return v
+			}
+			up := (&merge.UpdaterBuilder{Converter: sameVersionConverter{}}).BuildUpdater()
+			live, m, err := up.Apply(tv2("null"), tv2(`{"spec": {"f": 1}, "other": 1}`), "v1", fieldpath.ManagedFields{}, "a", false)
+			if err == nil && live != nil {
+				newObj := tv2(`{"spec": {"f": 1, "sibl": []}, "other": 1}`)
+				if _, m, err = up.Update(live, newObj, "v1", m, "u"); err == nil {
+					res, m2, err := up.Apply(newObj, tv2(`{"other": 1}`), "v1", m, "a", false)
+					if err == nil && res != nil {
+						spec, has := res.AsValue().AsMap().Get("spec")
+						_, uKept := m2["u"]
+						if !has || spec.IsNull() || !uKept {
+							o.Fail("C02", "others-owned-node-kept", fmt.Sprintf("corpus witness: result %v, u keeps a record: %v", res.AsValue().Unstructured(), uKept),
+								"others-owned-node-kept/D17-empty-list-invisible corpus", "corpus:D17")
+						}
+					}
+				}
+			}
+		}
+	}
 	_ = value.NewValueInterface
 }
